@@ -15,8 +15,8 @@ open Scalar
 
 variable {F P : Type} [Scalar F] [Scalar P] [Cvt P F] [Trig F] [Trig P]
 
-def showInt (n : Int) : Str := (toString n).toList
-def showNat (n : Nat) : Str := (toString n).toList
+def showInt (n : Int) : Str := intDigits n
+def showNat (n : Nat) : Str := decDigits n
 def showF (x : F) : Str := Scalar.print x
 def showP (x : P) : Str := Scalar.print x
 def b01 (b : Bool) : Str := if b then ['1'] else ['0']
@@ -61,7 +61,7 @@ def encodeEditor (m : Beatmap F P) : Str :=
   kvLine "GridSize" (showInt e.gridSize) ++
   kvLine "TimelineZoom" (showF e.timelineZoom)
 
-/-- `Beatmap::encode_metadata` (ids are never written). -/
+/-- `Beatmap::encode_metadata` (positive ids are written last). -/
 def encodeMetadata (m : Beatmap F P) : Str :=
   let d := m.metadata
   str "[Metadata]\n" ++
@@ -72,7 +72,9 @@ def encodeMetadata (m : Beatmap F P) : Str :=
   kvLine "Creator" d.creator ++
   kvLine "Version" d.version ++
   (if d.source.isEmpty then [] else kvLine "Source" d.source) ++
-  (if d.tags.isEmpty then [] else kvLine "Tags" d.tags)
+  (if d.tags.isEmpty then [] else kvLine "Tags" d.tags) ++
+  (if d.beatmapId > 0 then kvLine "BeatmapID" (showInt d.beatmapId) else []) ++
+  (if d.beatmapSetId > 0 then kvLine "BeatmapSetID" (showInt d.beatmapSetId) else [])
 
 /-- `Beatmap::encode_difficulty`. -/
 def encodeDifficulty (m : Beatmap F P) : Str :=
@@ -172,7 +174,9 @@ def pathPointsLoop (pos : Pos P) (cps : List (PathControlPoint P)) (n : Nat) :
       match point.pathType with
       | none => ([], lastType)
       | some pt =>
-        let needs0 := (point.pathType != lastType) || (point.pathType == some PathType.perfect)
+        -- the last control point of a segment (or of the path) is always written explicitly
+        let endsSegment := match cps[i + 1]? with | some nxt => nxt.pathType.isSome | none => true
+        let needs0 := (point.pathType != lastType) || (point.pathType == some PathType.perfect) || endsSegment
         let needs :=
           if i > 1 then
             match cps[i - 1]?, cps[i - 2]? with
@@ -182,7 +186,7 @@ def pathPointsLoop (pos : Pos P) (cps : List (PathControlPoint P)) (n : Nat) :
               if (Scalar.toI32 p1.x == Scalar.toI32 p2.x) && (Scalar.toI32 p1.y == Scalar.toI32 p2.y) then true else needs0
             | _, _ => needs0
           else needs0
-        if needs then (pathTypeLetter pt ++ [sep], some pt)
+        if needs then (pathTypeLetter pt ++ [if n == 1 then ',' else '|'], some pt)
         else (coords ++ ['|'], lastType)
     let pointPart : Str := if i != 0 then coords ++ [sep] else []
     typePart ++ pointPart ++ pathPointsLoop pos cps n (i + 1) lastType' rest
@@ -352,7 +356,7 @@ def Props.default : Props F :=
   { sliderVelocity := 0, timingSignature := 0, sampleBank := 0, customSampleBank := 0, sampleVolume := 0, effectFlags := 0 }
 
 /-- `ControlPointProperties::new`. -/
-def Props.new (time : F) (cp : ControlPoints F) (last : Props F) (updateSampleBank : Bool) : Props F :=
+def Props.new (time : F) (cp : ControlPoints F) (last : Props F) (updateSampleBank : Bool) (mode : GameMode) : Props F :=
   let timing := cp.timingPointAt time
   let difficulty := cp.difficultyPointAt time
   let sample := (cp.samplePointAt time).getD SamplePoint.default
@@ -360,7 +364,11 @@ def Props.new (time : F) (cp : ControlPoints F) (last : Props F) (updateSampleBa
   let tmp := sample.apply (HitSampleInfo.new (.default .normal) none 0 0)
   let kiai := (effect.map (·.kiai)).getD false
   let omitBar := (timing.map (·.omitFirstBarLine)).getD false
-  { sliderVelocity := (difficulty.map (·.sliderVelocity)).getD (1 : F)
+  { sliderVelocity :=
+      -- taiko / mania: the field carries the scroll speed
+      (match mode with
+       | .taiko | .mania => (effect.map (·.scrollSpeed)).getD (1 : F)
+       | _ => (difficulty.map (·.sliderVelocity)).getD (1 : F))
     timingSignature := ((timing.map (·.timeSignature)).getD TimeSignature.simpleQuadruple).numerator
     sampleBank := if updateSampleBank then tmp.bank.idx else last.sampleBank
     customSampleBank := if tmp.customSampleBank ≥ 0 then tmp.customSampleBank else last.customSampleBank
@@ -388,19 +396,19 @@ def insertGroup (groups : List (Group F)) (time : F) : List (Group F) :=
   | .found _ => groups
   | .notFound i => groups.insertIdx i { time := time, timing := none }
 
-def encodeGroups (cp : ControlPoints F) : List (Group F) → Props F → Str
+def encodeGroups (mode : GameMode) (cp : ControlPoints F) : List (Group F) → Props F → Str
   | [], _ => []
   | g :: rest, last =>
-    let props := Props.new g.time cp last g.timing.isSome
+    let props := Props.new g.time cp last g.timing.isSome mode
     let (timingLine, last1) : Str × Props F :=
       match g.timing with
       | some t => (showF t.time ++ [','] ++ showF t.beatLen ++ [','] ++ propsTail props true,
                    { props with sliderVelocity := 1 })
       | none => ([], last)
-    if props.isRedundant last1 then timingLine ++ encodeGroups cp rest last1
+    if props.isRedundant last1 then timingLine ++ encodeGroups mode cp rest last1
     else
       timingLine ++ showF g.time ++ [','] ++ showF ((-100 : F) / props.sliderVelocity) ++ [','] ++ propsTail props false ++
-        encodeGroups cp rest props
+        encodeGroups mode cp rest props
 
 /-- `Beatmap::encode_timing_points`. -/
 def encodeTimingPoints (m : Beatmap F P) : Outcome Str := do
@@ -409,7 +417,7 @@ def encodeTimingPoints (m : Beatmap F P) : Outcome Str := do
   let groups0 := groups0.mergeSort (fun a b => decide (totalKey a.time ≤ totalKey b.time))
   let times := cp.difficultyPoints.map (·.time) ++ cp.effectPoints.map (·.time) ++ cp.samplePoints.map (·.time)
   let groups := times.foldl insertGroup groups0
-  pure (str "[TimingPoints]\n" ++ encodeGroups cp groups Props.default)
+  pure (str "[TimingPoints]\n" ++ encodeGroups m.general.mode cp groups Props.default)
 
 /-- `Beatmap::encode` (the bytes written, as text). -/
 def encode (m : Beatmap F P) : Outcome Str := do
